@@ -131,6 +131,9 @@ pub struct CaseA {
     pub cuts: Vec<usize>,
     pub services: usize,
     pub searches: usize,
+    /// Searches whose receiver the client dropped without stopping them (they stay in the daemon's tables),
+    /// next to four more open browses of other types.
+    pub abandoned: usize,
     pub second_shutdown: bool,
 }
 
@@ -160,6 +163,25 @@ pub fn run_case_a(case: &CaseA, seed: u64, l: &mut Local) {
             open_chans.push((c, "browse(T2)"));
         }
     }
+    if case.abandoned > 0 {
+        const MORE: [&str; 4] = ["_c14m0._udp.local.", "_c14m1._udp.local.", "_c14m2._udp.local.", "_c14m3._udp.local."];
+        const MORE_NAMES: [&str; 4] = ["browse(more0)", "browse(more1)", "browse(more2)", "browse(more3)"];
+        for (ty, name) in MORE.iter().zip(MORE_NAMES.iter()) {
+            if let Some(c) = w.browse(h, ty) {
+                open_chans.push((c, name));
+            }
+        }
+        for j in 0..case.abandoned {
+            if let Some(c) = w.browse(h, &format!("_c14gone{j}._udp.local.")) {
+                w.settle();
+                w.drop_chan(c);
+            }
+        }
+        if let Some(c) = w.resolve_hostname(h, "gone-host.local.", None) {
+            w.settle();
+            w.drop_chan(c);
+        }
+    }
     w.run_until(t0 + 3000); // services are announced twice by now
     let t_seq = w.now();
     // the sequence
@@ -187,8 +209,8 @@ pub fn run_case_a(case: &CaseA, seed: u64, l: &mut Local) {
     let second_result = if case.second_shutdown { w.last_api_result() } else { None };
     w.run_for(1000);
     // the daemon must be gone by now
-    let desc = format!("services={} searches={} seq=[{}]", case.services, case.searches, names.join(" "));
-    let key = format!("{}|{}|{:?}|{:?}|{}", case.services, case.searches, seq, case.cuts, case.second_shutdown);
+    let desc = format!("services={} searches={} abandoned={} seq=[{}]", case.services, case.searches, case.abandoned, names.join(" "));
+    let key = format!("{}|{}|{}|{:?}|{:?}|{}", case.services, case.searches, case.abandoned, seq, case.cuts, case.second_shutdown);
     l.distinct.insert(util::fnv_str(&key));
     if l.samples.len() < 2 {
         l.samples.push(json!({"case": desc}));
@@ -336,7 +358,9 @@ pub fn run_case_a(case: &CaseA, seed: u64, l: &mut Local) {
         let ended_before = crate::props::c13::ended_by_api_idx(&w.trace, ci).is_some_and(|(_, cause, i)| i < shutdown_idx && cause != "shutdown");
         let obs: Vec<&Obs> = w.trace.obs(ci.chan).map(|(_, o)| o).filter(|o| !matches!(o, Obs::Closed)).collect();
         let timed_out = obs.iter().any(|o| matches!(o, Obs::HTimeout(_)));
-        if ended_before || timed_out || matches!(ci.kind, crate::props::c13::Kind::BrowseCache(_)) {
+        // a receiver the client dropped cannot be told anything
+        let dropped = w.trace.entries.iter().any(|e| matches!(&e.ev, Ev::Api { call: ApiCall::DropChannel(c), .. } if *c == ci.chan));
+        if ended_before || timed_out || dropped || matches!(ci.kind, crate::props::c13::Kind::BrowseCache(_)) {
             continue;
         }
         l.act("X2");
@@ -632,7 +656,7 @@ pub fn run_case_b(seed: u64, l: &mut Local) {
 pub fn run(report: &Report, tier: &Tier) {
     report.set_rule(
         "Part A: shutdown at every position of every sequence of N commands out of 20 kinds (exhaustive N<=1 quick, N<=2 thorough; sampled to N=8), \
-         the sequence released in one iteration or split over up to three, with 0..3 announced services and 0..3 open searches beforehand, \
+         the sequence released in one iteration or split over up to three, with 0..3 announced services and 0..3 open searches beforehand (in a third of the cases also four more open browses and 1..2 browses plus a hostname search whose receivers were dropped without a stop), \
          optionally a second shutdown; Part B: real daemon threads on private ports, 2..8 client threads x 5..34 random calls, shutdown after \
          0..6 ms; distinct by full case description (A) / (clients, calls, delay bucket) (B)",
     );
@@ -657,7 +681,7 @@ pub fn run(report: &Report, tier: &Tier) {
             }
             for cuts in cut_sets {
                 for (services, searches) in [(0usize, 0usize), (2, 2), (3, 3)] {
-                    cases.push(CaseA { cmds: cmds.clone(), pos, cuts: cuts.clone(), services, searches, second_shutdown: false });
+                    cases.push(CaseA { cmds: cmds.clone(), pos, cuts: cuts.clone(), services, searches, abandoned: if searches == 3 { 2 } else { 0 }, second_shutdown: false });
                 }
             }
         }
@@ -677,7 +701,7 @@ pub fn run(report: &Report, tier: &Tier) {
         let mut cuts: Vec<usize> = (0..rng.usize(3)).map(|_| 1 + rng.usize(n)).collect();
         cuts.sort_unstable();
         cuts.dedup();
-        let case = CaseA { cmds, pos, cuts, services: rng.usize(4), searches: rng.usize(4), second_shutdown: rng.chance(1, 3) };
+        let case = CaseA { cmds, pos, cuts, services: rng.usize(4), searches: rng.usize(4), abandoned: rng.usize(3), second_shutdown: rng.chance(1, 3) };
         run_case_a(&case, util::mix(seed, 0xC14_B000 + i), l);
     });
     // Part B
